@@ -86,8 +86,8 @@ Shapes(a, o) ==
 
 \* variants of foo itself: [aliases, hidden, description, help]
 Foos == [plain |-> [al |-> <<>>, hid |-> FALSE, desc |-> Short, help |-> <<>>],
-         alias |-> [al |-> <<"fo", "f2">>, hid |-> FALSE, desc |-> Long, help |-> HelpText],
-         hidden |-> [al |-> <<"fo">>, hid |-> TRUE, desc |-> None, help |-> <<>>]]
+         alias |-> [al |-> <<"fx", "f2">>, hid |-> FALSE, desc |-> Long, help |-> HelpText],
+         hidden |-> [al |-> <<"fx">>, hid |-> TRUE, desc |-> None, help |-> <<>>]]
 
 Quxes == [none |-> <<>>,
           plain |-> <<Cmd("qux", 5, <<>>, FALSE, TRUE, FALSE, FALSE, None, <<>>, <<>>, <<>>, <<>>)>>,
